@@ -395,6 +395,8 @@ class Check:
         known = [k for k in known if k.get("property") == self.prop and k.get("status") == "known"]
         replay_dir = os.path.join(VERIF, "replays", "replayed") if self.replay_rec is not None else os.path.join(VERIF, "replays")
         os.makedirs(replay_dir, exist_ok=True)
+        for old in glob.glob(os.path.join(replay_dir, "%s_%s_*.json" % (self.prop, self.tier))):
+            os.remove(old)  # replay files of earlier runs of this check and tier would otherwise be mistaken for this run's
         reported = 0
         known_hit = {}
         lines = []
